@@ -295,18 +295,13 @@ theorem tie_cacheDelStmts : cacheDelStmts = [
     "c.lruCache.remove(key)",
     "c.timingWheel.RemoveTimer(key)"] := by decide
 
-/-- `SetWithExpire`: presence read *before* the write; write; `lruCache.add`; jittered expiry; MoveTimer if present else SetTimer (CacheG.set) -/
+/-- `SetWithExpire`: write; `lruCache.add`; jittered expiry; `SetTimer` for new and pending keys alike — no
+`MoveTimer` (which would fire at once for a delay below one interval) (CacheG.set) -/
 theorem tie_cacheSetStmts : cacheSetStmts = [
-    "_, ok := c.data[key]",
     "c.data[key] = value",
     "c.lruCache.add(key)",
     "expiry := c.unstableExpiry.AroundDuration(expire)",
-    "if ok {",
-    "c.timingWheel.MoveTimer(key, expiry)",
-    "}",
-    "else {",
-    "c.timingWheel.SetTimer(key, value, expiry)",
-    "}"] := by decide
+    "c.timingWheel.SetTimer(key, value, expiry)"] := by decide
 
 /-- `Set` = SetWithExpire with the configured expiry -/
 theorem tie_cacheSetDefaultStmts : cacheSetDefaultStmts = [
